@@ -1,6 +1,4 @@
 """C17 — Appendable files behave as a persistent byte log (singleapp / multiapp vs one byte array)."""
-import json, os
-
 from common_tb import COMMON_TB
 
 CFG = dict(
@@ -33,17 +31,9 @@ CFG = dict(
 )
 
 
-def _known():
-    p = os.path.join(os.path.dirname(os.path.abspath(__file__)), "..", "..", "known_findings", "C17.json")
-    try:
-        return [f["match"] for f in json.load(open(p)).get("findings", []) if f.get("status") == "known"]
-    except Exception:
-        return []
-
-
 def classify(c):
     """True when the outputs recorded for this case depart, by themselves, from the byte-array log of the
-    property statement in a way that is not one of the known findings (the harness stores the tag of the
-    first departure of every case)."""
-    d = c.get("departure") or ""
-    return bool(d) and not any(m in d for m in _known())
+    property statement (the harness compares every output with a plain byte slice and stores the tag of the
+    first departure of the case; "" = none).  A disagreement between model and implementation on a case
+    without such a departure is a correspondence break only."""
+    return bool(c.get("departure"))
